@@ -124,6 +124,16 @@ Proof. unfold eps, eps_R. cbn [ofQ RO]. unfold Q2R. cbn. lra. Qed.
 Lemma differ_RO : forall a b, differ RO a b = false <-> Rabs (a - b) <= eps_R.
 Proof. intros. unfold differ. cbn [ltb abs sub RO]. rewrite eps_RO. apply Rltb_false. Qed.
 
+Lemma Reqb_refl_true : forall x, Reqb x x = true.
+Proof. intros x. unfold Reqb. destruct (Req_EM_T x x) as [E|E]; [reflexivity|exfalso; apply E; reflexivity]. Qed.
+Lemma fmax_RO_max : forall x y, fmax RO x y = Rmax x y.
+Proof.
+  intros. unfold fmax, is_nan. cbn [eqb RO ltb]. rewrite !Reqb_refl_true. cbn [negb].
+  unfold Rmax, Rltb. destruct (Rle_dec x y), (Rlt_dec x y); auto; lra.
+Qed.
+Lemma sym_differ_RO : forall a b, sym_differ RO a b = false <-> Rabs (a - b) <= eps_R * Rmax (Rabs a) (Rabs b).
+Proof. intros. unfold sym_differ. rewrite fmax_RO_max. cbn [ltb abs sub mul RO]. rewrite eps_RO. apply Rltb_false. Qed.
+
 Theorem eq_v_def : forall x y : list R,
   eq_v RO x y = true <-> length x = length y /\ forall i, (i < length x)%nat -> Rabs (nth i x 0 - nth i y 0) <= eps_R.
 Proof.
